@@ -730,7 +730,7 @@ class Bf3File:
 
     def _get_config_ndx(self) -> int:
         for ndx, comp in enumerate(self.components):
-            if comp.description[BF3TAG.TYPE] == bytes([BF3TYPE.CONFIGURATION]):
+            if comp.description.get(BF3TAG.TYPE) == bytes([BF3TYPE.CONFIGURATION]):
                 return ndx
         else:
             raise KeyError("Bf3 Package does not contain configuration")
